@@ -423,6 +423,15 @@ class Runner:
             if self.kind == 'asyncio':
                 d.cancel_request(self.impl_rid[pend[0]])
             term = '(OpCancelPoll %s)' % qN(pend[0])
+        elif k == 'cancelreq':
+            # the web server cancels the task of a POST that is still running (its handler is suspended).  Used by the oracle-only suite with
+            # suspending handlers: never compared with the model, whose handlers do not suspend (the term is a placeholder)
+            pend = [r for r in sorted(self.req_info) if self.req_info[r][0] == 'post' and not d.rec[self.impl_rid[r]].get('done')]
+            if not pend or self.kind != 'asyncio':
+                self.pre.pop()
+                return
+            d.cancel_request(self.impl_rid[pend[-1]])
+            term = '(OpCancelPoll 0)'
         elif k in ('send', 'disc', 'transport', 'getsess', 'savesess'):
             a = self.na
             self.na += 1
